@@ -513,9 +513,11 @@ def c02(tier):
                 args = [full(a) for a in e.get("args", [])]
                 if op == "addinst":
                     # the same box of every copy of a payer form that takes part
-                    args = sorted(n for n in S if n.split(".")[0].split(":")[0] == e["inst"] and n.split(".", 1)[1] == e["box"])
+                    args = sorted(n for n in S for (ins, box) in e["terms"] if n.split(".")[0].split(":")[0] == ins and n.split(".", 1)[1] == box)
                     op = "add"
                     if not args:
+                        continue
+                    if e.get("cond_nonzero") and S.get(line, 0) == 0:
                         continue
                 if op == "addprefix":
                     args = sorted(n for n in S if n.startswith("%s.%s" % (finst, e["prefix"])))
@@ -655,7 +657,7 @@ def isolated_probes(eqs_by_year, tier, seed_):
         en = E.filing_status_2021 if year == 2021 else E.filing_status
         members = list(en.__members__.values())
         for e in eqs:
-            if e["op"] not in ("add", "sub", "mul", "mulk", "min", "max", "same", "ceil1000", "max0sub", "minconst", "const") or e.get("cond"):
+            if e["op"] not in ("add", "sub", "mul", "mulk", "mulcnt", "min", "max", "same", "ceil1000", "max0sub", "minconst", "const") or e.get("cond") or any("." in a for a in e.get("args", [])):
                 continue
             cls = cat.classes.get(e["form"])
             if cls is None:
